@@ -38,16 +38,31 @@ RULE = ("cases: fields generated from random.Random(seed) on periodic Cartesian 
 SCALES = [0.03125, 0.25, 0.5, 2.0, 8.0, 32.0]
 
 
+class WrongKind(Exception):
+    """the implementation returned something that is not a pair of real 1-d arrays of equal length"""
+
+
 def gsf(field, **kw):
     from droplets.image_analysis import get_structure_factor
-    k, sf = get_structure_factor(field, **kw)
-    return np.asarray(k, dtype=float), np.asarray(sf, dtype=float)
+    res = get_structure_factor(field, **kw)
+    if not (isinstance(res, tuple) and len(res) == 2):
+        raise WrongKind(f"result is {type(res).__name__}, not a pair")
+    k, sf = (np.asarray(v) for v in res)
+    for name, v in (("wave numbers", k), ("structure factor", sf)):
+        if np.iscomplexobj(v) and np.any(v.imag != 0):
+            raise WrongKind(f"{name} are complex")
+        if v.ndim != 1:
+            raise WrongKind(f"{name} have {v.ndim} dimensions")
+    if k.shape != sf.shape:
+        raise WrongKind(f"wave numbers and structure factor have different lengths {k.shape}, {sf.shape}")
+    return np.asarray(k.real, dtype=float), np.asarray(sf.real, dtype=float)
 
 
 def _variants(c, data, rng):
     """(name, field data, perm, stretch) variants under which the result must not change"""
     d = data.ndim
-    out = [(f"scale by {cc:g}", cc * data, None, 1.0) for cc in sc.SCALE_FACTORS]
+    data64 = data.astype(float)  # exact for float32 / int64 data; the factors must not be rounded to the data's dtype
+    out = [(f"scale by {cc:g}", cc * data64, None, 1.0) for cc in sc.SCALE_FACTORS]
     out += [("shift", np.roll(data, [rng.randrange(0, n) for n in data.shape], axis=tuple(range(d))), None, 1.0),
            ("reflect", np.flip(data, axis=rng.randrange(d)), None, 1.0)]
     if d > 1:
@@ -59,18 +74,70 @@ def _variants(c, data, rng):
     return out
 
 
-def prop_c16(c: dict, rng: random.Random) -> list[dict]:
+WN_FORMS = ["sorted list", "tuple", "array", "unsorted list", "with zero", "beyond k_max", "single"]
+SIGMA_FORMS = ["float", "numpy float64", "0-d array", "int"]
+PROVENANCE = ["fresh", "copy()", "deepcopy", "pickle"]
+OFF_SPELLINGS = [None, "none", 0, 0.0]
+
+
+def _wave_numbers(rng, kmax: float, form: str):
+    vals = sorted(kmax * (0.05 + 0.95 * rng.random()) for _ in range(5))
+    if form == "tuple":
+        return tuple(vals)
+    if form == "array":
+        return np.array(vals)
+    if form == "unsorted list":
+        return [vals[3], vals[0], vals[4], vals[1], vals[1]]  # with a repeated entry
+    if form == "with zero":
+        return [0.0] + vals[1:]
+    if form == "beyond k_max":
+        return vals[:3] + [1.5 * kmax, 40.0 * kmax]
+    if form == "single":
+        return [vals[2]]
+    return vals
+
+
+def _sigma(rng, kmax: float, form: str):
+    if form == "int":  # an integer width (in wave-number units): at least 1
+        return max(1, int(round(0.3 * kmax)))
+    s = rng.choice([0.1, 0.3]) * kmax
+    return {"float": s, "numpy float64": np.float64(s), "0-d array": np.array(s)}[form]
+
+
+def _provenance(f, how: str):
+    import copy
+    import pickle
+    if how == "copy()":
+        return f.copy()
+    if how == "deepcopy":
+        return copy.deepcopy(f)
+    if how == "pickle":
+        return pickle.loads(pickle.dumps(f))
+    return f
+
+
+def prop_c16(c: dict, rng: random.Random, ctx=None) -> list[dict]:
     """Executable form of the property text over the implementation; returns failures."""
     fails = []
 
     def fail(what, **kw):
         fails.append({"what": what, "input": sc.canon(c), **sc.json_safe(kw)})
 
+    def count(key, val):
+        if ctx is not None:
+            ctx.count(key, val)
+
+    tol = sc.tols(c)
+    R, A = tol["rel"], tol["abs"]
     data = sc.build(c)
-    f = sc.make_field(c, data)
+    data0 = data.copy()
+    how = rng.choice(PROVENANCE)
+    count("provenance", how)
+    f = _provenance(sc.make_field(c, data), how)
     disc = np.asarray(f.grid.discretization, dtype=float)
     N = data.size
-    sumsq = float(np.sum(data * data))
+    d64 = data.astype(float)
+    sumsq = float(np.sum(d64 * d64))
     k, sf = gsf(f, smoothing=None)
     tk, tsf = sc.truth_raw(data, disc)
     if k.shape != (N - 1,) or sf.shape != (N - 1,):
@@ -78,42 +145,72 @@ def prop_c16(c: dict, rng: random.Random) -> list[dict]:
         return fails
     if not np.all(np.isfinite(sf)) or sf.min() < 0:
         fail("structure factor negative or not finite", min=float(np.nanmin(sf)))
-    want = 1 - float(np.sum(data)) ** 2 / (N * sumsq)
-    if not abs(float(sf.sum()) - want) <= 1e-10:
+    want = 1 - float(np.sum(d64)) ** 2 / (N * sumsq)
+    if not abs(float(sf.sum()) - want) <= tol["parseval"]:
         fail("Parseval: sum of the structure factor is not 1 - N*mean^2/sum(x^2)", got=float(sf.sum()), want=want)
+    # mode by mode, in the C order of the transform: entry j belongs to multi-index unravel(j + 1)
     if not sc.close_arrays(k, tk, rel=1e-12, abs_=0.0):
-        fail("wave numbers are not 2*pi*fftfreq of the grid", got=k[:4].tolist(), want=tk[:4].tolist())
-    if not sc.close_arrays(sf, tsf, rel=1e-9, abs_=1e-12):
-        fail("values are not |orthonormal DFT|^2 / sum(x^2) without the zero mode",
-             got=sf[:4].tolist(), want=tsf[:4].tolist())
-    # requested wave numbers / smoothing widths for the smoothed variant
+        j = int(np.argmax(np.abs(k - tk)))
+        fail("wave numbers are not 2*pi*fftfreq of the grid (mode by mode)", mode=list(np.unravel_index(j + 1, data.shape)),
+             got=k[j], want=tk[j])
+    if not sc.close_arrays(sf, tsf, rel=R, abs_=A):
+        j = int(np.argmax(np.abs(sf - tsf)))
+        fail("values are not |orthonormal DFT|^2 / sum(x^2) without the zero mode (mode by mode)",
+             mode=list(np.unravel_index(j + 1, data.shape)), got=sf[j], want=tsf[j])
+    # every spelling of "no smoothing" returns the raw arrays (wave numbers are then only warned about)
+    for sp in OFF_SPELLINGS[1:]:
+        k_o, sf_o = gsf(f, smoothing=sp)
+        if not (np.array_equal(k_o, k) and np.array_equal(sf_o, sf)):
+            fail("spellings of 'no smoothing' give different results", smoothing=repr(sp))
     kmax = float(tk.max())
-    wn = sorted(kmax * (0.05 + 0.95 * rng.random()) for _ in range(5))
-    sigma = rng.choice([0.1, 0.3]) * kmax
-    k_r, sf_r = gsf(f, smoothing=sigma, wave_numbers=wn)
+    # requested wave numbers / smoothing widths for the smoothed variant, in every accepted form
+    wn_form, sg_form = rng.choice(WN_FORMS), rng.choice(SIGMA_FORMS)
+    count("wave_numbers_form", wn_form)
+    count("sigma_form", sg_form)
+    wn_arg = _wave_numbers(rng, kmax, wn_form)
+    wn = [float(w) for w in wn_arg]
+    wn_before = list(wn)
+    sigma_arg = _sigma(rng, kmax, sg_form)
+    sigma = float(sigma_arg)
+    k_n, sf_n = gsf(f, smoothing=rng.choice(OFF_SPELLINGS), wave_numbers=wn_arg)
+    if not (np.array_equal(k_n, k) and np.array_equal(sf_n, sf)):
+        fail("without smoothing the requested wave numbers must be ignored", wave_numbers=wn)
+    k_r, sf_r = gsf(f, smoothing=sigma_arg, wave_numbers=wn_arg)
     if not np.array_equal(k_r, np.array(wn)):
-        fail("smoothed variant does not return the requested wave numbers", got=k_r.tolist(), want=wn)
+        fail("smoothed variant does not return the requested wave numbers", got=k_r.tolist(), want=wn, form=wn_form)
+    if [float(w) for w in wn_arg] != wn_before:
+        fail("the caller's wave_numbers were modified", form=wn_form)
+    k_f, sf_f = gsf(f, smoothing=sigma, wave_numbers=wn)
+    if not (np.array_equal(k_f, k_r) and np.array_equal(sf_f, sf_r)):
+        fail("the form of the arguments (list / tuple / array, float / numpy scalar / int) changes the result",
+             wave_numbers_form=wn_form, sigma_form=sg_form)
+    if not np.all(np.isfinite(sf_r)) or sf_r.min() < -A:
+        fail("smoothed structure factor negative or not finite", min=float(np.nanmin(sf_r)))
     k_a, sf_a = gsf(f)
+    for kw in ({"smoothing": "auto"}, {"wave_numbers": "auto"}, {"wave_numbers": None}, {"smoothing": "auto", "wave_numbers": None}):
+        k_b, sf_b = gsf(f, **kw)
+        if not (np.array_equal(k_b, k_a) and np.array_equal(sf_b, sf_a)):
+            fail("spelling out the defaults changes the result", kwargs={k_: repr(v) for k_, v in kw.items()})
     for name, vdata, perm, s in _variants(c, data, rng):
         g = sc.make_field(c, vdata, scale=s, perm=perm)
         k2, sf2 = gsf(g, smoothing=None)
         if name.startswith("scale") or name == "shift":
-            if not (sc.close_arrays(k2, k, 1e-12, 0.0) and sc.close_arrays(sf2, sf, 1e-9, 1e-12)):
+            if not (sc.close_arrays(k2, k, 1e-12, 0.0) and sc.close_arrays(sf2, sf, R, A)):
                 fail(f"unsmoothed structure factor changes under {name}", variant=name)
         elif name in ("reflect", "permute"):
-            if not sc.same_pairs(k2, sf2, k, sf):
+            if not sc.same_pairs(k2, sf2, k, sf, rel=R, abs_sf=A):
                 fail(f"(k, sf) pairs are not permuted under {name}", variant=name, perm=perm)
         else:
             if not sc.close_arrays(k2 * s, k, 1e-12, 0.0):
                 fail("wave numbers do not scale inversely with the grid size", stretch=s,
                      got=(k2[:3] * s).tolist(), want=k[:3].tolist())
-            if not sc.close_arrays(sf2, sf, 1e-9, 1e-12):
+            if not sc.close_arrays(sf2, sf, R, A):
                 fail("structure factor changes when the grid is stretched", stretch=s)
         k3, sf3 = gsf(g, smoothing=sigma / s, wave_numbers=[w / s for w in wn])
-        if not (np.array_equal(k3, np.array([w / s for w in wn])) and sc.close_arrays(sf3, sf_r, 1e-9, 1e-12)):
+        if not (np.array_equal(k3, np.array([w / s for w in wn])) and sc.close_arrays(sf3, sf_r, R, A)):
             fail(f"smoothed structure factor (requested wave numbers) changes under {name}", variant=name, stretch=s)
         k4, sf4 = gsf(g)
-        if not (sc.close_arrays(k4 * s, k_a, 1e-12, 0.0) and sc.close_arrays(sf4, sf_a, 1e-9, 1e-12)):
+        if not (sc.close_arrays(k4 * s, k_a, 1e-12, 0.0) and sc.close_arrays(sf4, sf_a, R, A)):
             fail(f"smoothed structure factor (automatic) changes under {name}", variant=name, stretch=s)
     for kw, (k0, s0) in (({"smoothing": None}, (k, sf)), ({"smoothing": sigma, "wave_numbers": wn}, (k_r, sf_r)),
                          ({}, (k_a, sf_a))):
@@ -122,6 +219,13 @@ def prop_c16(c: dict, rng: random.Random) -> list[dict]:
                 and np.array_equal(sz[1:], s0)):
             fail("add_zero does not prepend the pair (0, 1)", kwargs={k_: str(v) for k_, v in kw.items()},
                  got=[float(kz[0]), float(sz[0])], lengths=[len(kz), len(k0)])
+    if not (np.array_equal(f.data, data0) and f.data.dtype == data0.dtype):
+        fail("the field passed in was modified")
+    # the grid's periodicity flags only produce a warning: same numbers as on the fully periodic grid
+    if not all(c.get("periodic", [True])):
+        k_p, sf_p = gsf(sc.make_field({**c, "periodic": [True] * len(c["shape"])}, data), smoothing=None)
+        if not (np.array_equal(k_p, k) and np.array_equal(sf_p, sf)):
+            fail("result depends on the periodicity flags of the grid")
     return fails
 
 
@@ -133,7 +237,8 @@ def corr_c16(c: dict, rng: random.Random, py: dict, consts: dict) -> list[str]:
     disc = np.asarray(f.grid.discretization, dtype=float)
     k, sf = gsf(f, smoothing=None)
     mk, msf = sc.model_raw(data, disc, py, consts)
-    if not (sc.close_arrays(k, mk, 1e-12, 0.0) and sc.close_arrays(sf, msf, 1e-12, 1e-300)):
+    f32 = c.get("dtype") == "float32"  # same operations in single precision: compare at single-precision resolution
+    if not (sc.close_arrays(k, mk, 1e-12, 0.0) and sc.close_arrays(sf, msf, 1e-5 if f32 else 1e-12, 1e-9 if f32 else 1e-300)):
         bad.append("raw spectrum")
     if not bad:
         size_max = float(f.grid.cuboid.size.max())
@@ -146,7 +251,7 @@ def corr_c16(c: dict, rng: random.Random, py: dict, consts: dict) -> list[str]:
                 kw["wave_numbers"] = wn
             ik, isf = gsf(f, **kw)
             tk, tsf = sc.model_tail(mk, msf, on, auto, nowave, az, sigma, size_max, wn, py, consts)
-            if not (sc.close_arrays(ik, tk, 1e-12, 0.0) and sc.close_arrays(isf, tsf, 1e-9, 1e-13)):
+            if not (sc.close_arrays(ik, tk, 1e-12, 0.0) and sc.close_arrays(isf, tsf, 1e-5 if f32 else 1e-9, 1e-9 if f32 else 1e-13)):
                 bad.append(f"control flow on={on} auto={auto} nowave={nowave} add_zero={az}")
     return bad
 
@@ -157,7 +262,7 @@ def _sample_goals(ctx, rng, py, consts):
     from pde import ScalarField  # noqa: F401
     goals = []
     for _ in range(ctx.scale(3, 10)):
-        c = sc.gen_case(rng, dim=rng.choice([1, 2]), kind="noise")
+        c = sc.gen_case(rng, dim=rng.choice([1, 2]), kind="noise", dtype="float64")
         data = sc.build(c)
         f = sc.make_field(c, data)
         disc = [float(v) for v in f.grid.discretization]
@@ -239,26 +344,32 @@ def check(ctx: vlib.Ctx) -> int:
     corr_bad = []
     spec_bad = {}
     for i in range(n):
-        c = sc.gen_case(rng, big=(not ctx.quick and i % 4 == 3))
+        c = sc.gen_case(rng, big=(not ctx.quick and i % 4 == 3), constant=True)
         data = sc.build(c)
-        if float(np.ptp(data)) == 0.0:
+        if not np.any(data):
             ctx.case(sc.canon(c), nontrivial=False)
+            ctx.count("skipped", "zero field (outside the property: non-zero fields)")
             continue
-        ctx.case(sc.canon(c))
-        ctx.count("dim", len(c["shape"]))
-        ctx.count("kind", c["kind"])
-        ctx.count("parity", "".join("e" if s % 2 == 0 else "o" for s in c["shape"]))
+        ctx.case(sc.canon(c), nontrivial=float(np.ptp(data)) != 0.0)
+        sc.count_case(ctx, c)
         ctx.count("cells_log2", int(math.log2(data.size)))
+        ctx.count("variance", "zero (constant field)" if float(np.ptp(data)) == 0.0 else "positive")
         if i < 3:
             ctx.sample(sc.canon(c))
-        for name in sc.check_fftn_spec(data, rng):
+        d64 = data.astype(float)
+        for name in sc.check_fftn_spec(d64, rng):
             spec_bad.setdefault(name, sc.canon(c))
         for name in sc.check_numpy_helpers(int(c["shape"][0]), float(c["h"][0])):
             spec_bad.setdefault(name, sc.canon(c))
-        if gen_ok:
-            for b in corr_c16(c, rng, py, consts):
-                corr_bad.append((b, sc.canon(c)))
-        failures.extend(prop_c16(c, rng))
+        # a result of the wrong kind or an exception on a valid input is a failure with that input, not a crash
+        try:
+            if gen_ok:
+                for b in corr_c16(c, rng, py, consts):
+                    corr_bad.append((b, sc.canon(c)))
+            failures.extend(prop_c16(c, rng, ctx))
+        except Exception as e:  # noqa: BLE001
+            failures.append({"what": f"get_structure_factor raises or returns a result of the wrong kind: {type(e).__name__}",
+                             "input": sc.canon(c), "error": str(e)[:300]})
     for name, c in spec_bad.items():
         ctx.broken.append(f"oracle-spec:{'fftn' if name not in ('fftfreq', 'linspace') else name} premise {name} fails "
                           f"on {json.dumps(c)[:300]}")
